@@ -51,6 +51,15 @@ func pickDelims(r *h.Rand) delims { return delimFamilies[r.Intn(len(delimFamilie
 // ---------------------------------------------------------------- expression source
 
 var identPool = []string{"a", "b", "s", "m", "f", "x1", "_y", "é", "item", "upper", "len", "isset", "true", "false", "nil"}
+// operands that take a postfix (field chain, index, slice, call); the literals among the identifiers
+// only now and then (a '.' after them is a parse error)
+func postfixBase(r *h.Rand) string {
+	if r.Chance(8) {
+		return r.Pick(identPool)
+	}
+	return r.Pick(identPool[:12])
+}
+
 var fieldPool = []string{".A", ".B", ".A.B", ".x", ".é", "."}
 
 func sp(r *h.Rand) string {
@@ -107,7 +116,7 @@ func genOperand(r *h.Rand, depth int) string {
 		}
 	case 6:
 		if depth > 0 {
-			return r.Pick(identPool) + "[" + genExprSrc(r, depth-1) + "]"
+			return postfixBase(r) + "[" + genExprSrc(r, depth-1) + "]"
 		}
 	case 7:
 		if depth > 0 {
@@ -118,7 +127,7 @@ func genOperand(r *h.Rand, depth int) string {
 			if r.Bool() {
 				b = genExprSrc(r, 0)
 			}
-			return r.Pick(identPool) + "[" + a + ":" + b + "]"
+			return postfixBase(r) + "[" + a + ":" + b + "]"
 		}
 	case 8:
 		if depth > 0 {
@@ -131,10 +140,10 @@ func genOperand(r *h.Rand, depth int) string {
 					args = append(args, genExprSrc(r, depth-1))
 				}
 			}
-			return r.Pick(identPool) + "(" + strings.Join(args, ","+sp(r)) + ")"
+			return postfixBase(r) + "(" + strings.Join(args, ","+sp(r)) + ")"
 		}
 	case 9:
-		return r.Pick(identPool) + r.Pick([]string{".A", ".B.C", ".é"})
+		return postfixBase(r) + r.Pick([]string{".A", ".B.C", ".é"})
 	}
 	return r.Pick(identPool)
 }
